@@ -299,7 +299,73 @@ func inRouter(c int) *explore.Scenario {
 	}}
 }
 
+// valuesFrom: a context whose cancellation comes from one context and whose values from another (what a
+// context-preserving transport hands to the next consumer).
+type valuesFrom struct {
+	context.Context
+	vals context.Context
+}
+
+func (c valuesFrom) Value(k any) any {
+	if v := c.vals.Value(k); v != nil {
+		return v
+	}
+	return c.Context.Value(k)
+}
+
+// chained: handler "first" passes its message on; the transport preserves the message context, so handler
+// "second" receives a message whose context still carries first's values. second fails: the poison metadata
+// names second, its topic and its subscriber.
+func chainedScenario() *explore.Scenario {
+	return &explore.Scenario{Name: "router/chained-handlers-context-preserving-transport", C: -1, DataOnly: true, Body: func() {
+		filter := filters[vs.Choose(len(filters), 0, "filter")]
+		poison := hx.NewScriptPub("poison")
+		sub1 := hx.NewScriptSub("src1", map[string][]*message.Message{"in1": {mkMsg("some")}})
+		orig2 := mkMsg("some")
+		orig2.UUID = "u2"
+		sub2 := hx.NewScriptSub("src2", map[string][]*message.Message{"in2": {orig2}})
+		sub2.Gate = make(chan struct{})
+		var upstream context.Context
+		sub2.CtxFor = func(ctx context.Context, m *message.Message) context.Context {
+			if upstream == nil {
+				return ctx
+			}
+			return valuesFrom{ctx, upstream}
+		}
+		mid := hx.NewScriptPub("mid")
+		mid.Probe = func(c *hx.PubCall) string {
+			if len(c.Msgs) > 0 && upstream == nil {
+				upstream = c.Msgs[0].Context()
+				sub2.Open()
+			}
+			return ""
+		}
+		r, _ := message.NewRouter(message.RouterConfig{}, nil)
+		r.AddMiddleware(build(filter, poison))
+		r.AddHandler("first", "in1", sub1, "mid", mid, func(m *message.Message) ([]*message.Message, error) {
+			return []*message.Message{m}, nil
+		})
+		r.AddNoPublisherHandler("second", "in2", sub2, func(m *message.Message) error { return e1 })
+		go func() {
+			if err := r.Run(context.Background()); err != nil {
+				vs.Fail("run-result", "%v", err)
+			}
+		}()
+		<-r.Running()
+		vs.Quiesce()
+		cfg := "filter=" + filter + ", chain first -> second over a context-preserving transport"
+		calls := poison.Snapshot()
+		if accepts(filter, e1) {
+			checkPoisonCall(cfg, calls, orig2, e1, "in2", "second", sub2.String())
+		} else if len(calls) != 0 {
+			vs.Fail("passes-through", "%s: %d poison publishes", cfg, len(calls))
+		}
+		vs.Note("%s calls=%d", cfg, len(calls))
+	}}
+}
+
 func init() {
+	reg.AddW("C13", "router/chained-handlers-context-preserving-transport", reg.Quick, 5, func(t reg.Tier) *explore.Scenario { return chainedScenario() })
 	reg.AddW("C13", "standalone", reg.Quick, 1, func(t reg.Tier) *explore.Scenario { return standalone() })
 	reg.AddW("C13", "standalone/budget-filter-stream", reg.Quick, 1, func(t reg.Tier) *explore.Scenario { return budgetStream() })
 	reg.AddW("C13", "router", reg.Quick, 5, func(t reg.Tier) *explore.Scenario { return inRouter(-1) })
